@@ -19,6 +19,7 @@ EXPLANATION = ("Effect analysis of coba/random.py (CobaRandom touches only its o
                "in [0,len-1], shuffle index in [i,n-1] with swap-only stores, strict cumulative comparison in weighted "
                "choice, choicew returning seq[i],weights[i] for one i, log argument excluding 0 in gauss.")
 EXPLANATION += ' R5: no seed is tested for truthiness (seed 0 is honoured).'
+EXPLANATION += " R3's weighted-choice rule accepts a strict linear scan or a right bisection; the interval evaluator models `u or c` (u in [0,1), c > 0) as excluding 0."
 
 RND = "coba/random.py"
 PURE_IMPORT_MODULES = {"math", "itertools", "operator", "typing", "time"}
